@@ -7,7 +7,7 @@ non-triviality accounting, evidence/C03.fuzz.json.  Called by bin/check-c03-fuzz
 
 exit 0 held / 1 VIOLATION printed / 2 infrastructure problem.
 env: VERIF_SEED (1), C03_BIN (directory with the four fuzz_* binaries and libxalan-c.so.112), VERIF_WORKERS (14),
-     C03_BUDGET (seconds of fuzzing per campaign: 60 quick / 1050 thorough), C03_KEEP=1 keeps the scratch directory.
+     C03_BUDGET (seconds of fuzzing per campaign: 60 quick / 1000 thorough), C03_KEEP=1 keeps the scratch directory.
 """
 import collections, glob, hashlib, json, os, re, shutil, signal, subprocess, sys, threading, time
 from concurrent.futures import ThreadPoolExecutor
@@ -89,7 +89,10 @@ def run(cmd, env, timeout, stdout_path=None):
     if stdout_path:
         with open(stdout_path, 'rb') as f:
             data = f.read()
-    return rc, (data or b'')[-400000:].decode('utf-8', 'replace'), time.time() - t0
+    data = data or b''
+    if len(data) > 500000:  # keep the head (the report starts there) and the tail (summary, libFuzzer's verdict)
+        data = data[:200000] + b'\n...[cut]...\n' + data[-300000:]
+    return rc, data.decode('utf-8', 'replace'), time.time() - t0
 
 
 def kill_group(p):
@@ -114,7 +117,10 @@ FRAME_RE = re.compile(r'^\s*#(\d+) 0x[0-9a-f]+ (?:in (.*?) )?(\(?/\S+?\)?)(?::(\
 ALLOC_FRAME = re.compile(r'^(operator new|operator new\[\]|malloc|calloc|realloc|posix_memalign|__interceptor_|'
                          r'xercesc_\d+_\d+::MemoryManagerImpl::allocate|xercesc_\d+_\d+::XMemory::operator new|'
                          r'xalanc_\d+_\d+::XalanMemoryManager\w*::allocate|xalanc_\d+_\d+::XalanMemMgrs|'
-                         r'xalanc_\d+_\d+::XalanAllocat\w*|xalanc_\d+_\d+::XalanAllocationGuard)')
+                         r'xalanc_\d+_\d+::XalanAllocat\w*|xalanc_\d+_\d+::XalanAllocationGuard|'
+                         # generic construction helpers, arenas and containers: the frame that asked them is the owner
+                         r'(\w+ ?\*? ?)?xalanc_\d+_\d+::(XalanConstruct|XalanCopyConstruct|Arena\w*<|ReusableArena\w*<|'
+                         r'Xalan(Vector|List|Map|Deque|Set|ArrayAllocator)<|XalanMemMgrAutoPtr|XalanAutoPtr))')
 
 
 def simplify(fn):
@@ -204,10 +210,13 @@ def signature(text):
     m = re.search(r"terminate called after throwing an instance of '([^']+)'", text)
     if m:
         return "crash:terminate '%s' @%s" % (simplify(m.group(1) + '('), first_xalan_function(text) or 'None')
-    if 'ERROR: LeakSanitizer' in text and 'ERROR: AddressSanitizer' not in text and 'runtime error' not in text and 'Assertion' not in text:
+    if ('ERROR: LeakSanitizer' in text or re.search(r'SUMMARY: AddressSanitizer: \d+ byte\(s\) leaked', text)) and 'ERROR: AddressSanitizer' not in text and 'runtime error' not in text and 'Assertion' not in text:
         owner, fn, _ = classify_leak(text)
         return {'xalan': 'leak:', 'harness': 'leak-harness:', 'system': 'leak-system:'}[owner] + fn
-    return 'crash:' + crash_signature(re.sub(r'\b0x[0-9a-f]{4,}\b', 'N', text))
+    # addresses and the offending value of a float-cast report vary from input to input: normalise both
+    text = re.sub(r'\b0x[0-9a-f]{4,}\b', 'N', text)
+    text = re.sub(r'runtime error: (-?[0-9][0-9.]*(?:e[+-]?[0-9]+)?|-?nan|-?inf) is outside the range', 'runtime error: N is outside the range', text)
+    return 'crash:' + crash_signature(text)
 
 
 # ------------------------------------------------------------------------------------------------ findings
@@ -491,7 +500,7 @@ def cmd_replay(path):
 
 def cmd_campaign(tier):
     t_start = time.time()
-    budget = int(os.environ.get('C03_BUDGET') or (60 if tier == 'quick' else 1050))
+    budget = int(os.environ.get('C03_BUDGET') or (60 if tier == 'quick' else 1000))
     for t in TARGETS:
         if not os.access(os.path.join(BIN, t), os.X_OK):
             log('missing target binary %s/%s' % (BIN, t))
